@@ -1,4 +1,5 @@
 From GV Require Import Common.Outcome C19.Model C19.Spec C19.Proofs.
+From GV Require Import C19.Diag C19.DiagSpec C19.DiagProofs.
 
 Theorem C19_feed_chunking : feed_chunking_stmt.
 Proof. exact feed_chunking. Qed.
@@ -35,3 +36,55 @@ Print Assumptions C19_line_byte_spec.
 Theorem C19_line_byte_out_of_range : line_byte_out_of_range_stmt.
 Proof. exact line_byte_out_of_range. Qed.
 Print Assumptions C19_line_byte_out_of_range.
+
+Theorem C19_underline_rows_spec : underline_rows_spec_stmt.
+Proof. exact underline_rows_spec. Qed.
+Print Assumptions C19_underline_rows_spec.
+
+Theorem C19_underline_nonempty : underline_nonempty_stmt.
+Proof. exact underline_nonempty. Qed.
+Print Assumptions C19_underline_nonempty.
+
+Theorem C19_underline_long_prefix : underline_long_prefix_stmt.
+Proof. exact underline_long_prefix. Qed.
+Print Assumptions C19_underline_long_prefix.
+
+Theorem C19_underline_orig_crlf_panic_refuted : underline_orig_crlf_panic_refuted_stmt.
+Proof. exact underline_orig_crlf_panic_refuted. Qed.
+Print Assumptions C19_underline_orig_crlf_panic_refuted.
+
+Theorem C19_underline_orig_crlf_line_refuted : underline_orig_crlf_line_refuted_stmt.
+Proof. exact underline_orig_crlf_line_refuted. Qed.
+Print Assumptions C19_underline_orig_crlf_line_refuted.
+
+Theorem C19_underline_orig_empty_refuted : underline_orig_empty_refuted_stmt.
+Proof. exact underline_orig_empty_refuted. Qed.
+Print Assumptions C19_underline_orig_empty_refuted.
+
+Theorem C19_underline_orig_cr_text_refuted : underline_orig_cr_text_refuted_stmt.
+Proof. exact underline_orig_cr_text_refuted. Qed.
+Print Assumptions C19_underline_orig_cr_text_refuted.
+
+Theorem C19_file_location_spec : file_location_spec_stmt.
+Proof. exact file_location_spec. Qed.
+Print Assumptions C19_file_location_spec.
+
+Theorem C19_file_location_out_of_range : file_location_out_of_range_stmt.
+Proof. exact file_location_out_of_range. Qed.
+Print Assumptions C19_file_location_out_of_range.
+
+Theorem C19_format_spanned_spec : format_spanned_spec_stmt.
+Proof. exact format_spanned_spec. Qed.
+Print Assumptions C19_format_spanned_spec.
+
+Theorem C19_format_spanned_unsorted_panics : format_spanned_unsorted_panics_stmt.
+Proof. exact format_spanned_unsorted_panics. Qed.
+Print Assumptions C19_format_spanned_unsorted_panics.
+
+Theorem C19_spans_on_line_spec : spans_on_line_spec_stmt.
+Proof. exact spans_on_line_spec. Qed.
+Print Assumptions C19_spans_on_line_spec.
+
+Theorem C19_rows_spec_determinate : rows_spec_determinate_stmt.
+Proof. exact rows_spec_determinate. Qed.
+Print Assumptions C19_rows_spec_determinate.
